@@ -61,6 +61,18 @@ def gen_policy(rng, shape=None):
         return (rp.retry_policy(wait=rp.wait_fixed(wv), stop=py),
                 "{| p_retry := None; p_wait := (WFixed %s); p_stop := %s |}" % (R.q(wv), g),
                 dict(shape="nested", stop_tree=t, wait=rp.wait_fixed(wv)))
+    if shape == "aliased":
+        # a named retry condition from which ANOTHER condition is derived afterwards (| or &): the named one must be unchanged
+        base = rp.retry_if_exception_type(ValueError) | rp.retry_if_exception_type(RuntimeError)
+        if rng.random() < 0.5:
+            _derived = base | rp.retry_if_exception_type(KeyError)       # noqa: F841  (built and dropped)
+        else:
+            _derived = base & rp.retry_if_exception_type(KeyError)       # noqa: F841
+        n = rng.choice([2, 3, 4])
+        return (rp.retry_policy(retry=base, wait=rp.wait_fixed(0), stop=rp.stop_after_attempt(n)),
+                "{| p_retry := (Some (RAny [RIfType [%d]; RIfType [%d]])); p_wait := (WFixed %s); p_stop := (SAfterAttempt %d) |}"
+                % (R.CID[ValueError], R.CID[RuntimeError], R.q(0), n),
+                dict(shape="aliased", n=n, wait=rp.wait_fixed(0), retryable=(ValueError, RuntimeError)))
     if shape == "never":
         w = R.gen_wait(rng, jitter=False)
         return (rp.retry_policy(retry=rp.retry_if_exception_type(KeyError), wait=w[0], stop=rp.stop_after_attempt(5)),
@@ -78,9 +90,13 @@ def gen_policy(rng, shape=None):
 
 
 def gen_case(rng):
-    shape = rng.choice(["attempt", "attempt", "delay", "never", "nested", "nested", None, None, None])
+    shape = rng.choice(["attempt", "attempt", "delay", "never", "nested", "nested", "aliased", None, None, None])
     pol, g, info = gen_policy(rng, shape)
-    if shape == "never":
+    if shape == "aliased":
+        k = rng.choice([0, 1, 2])          # k retryable failures, then a KeyError (not retryable under the named condition)
+        xs = [rng.choice([ValueError, RuntimeError])(rng.choice(R.MSGS)) for _ in range(k)] + [KeyError("k")] * (NEXC - k)
+        info["expect_execs"] = min(k + 1, info["n"])
+    elif shape == "never":
         xs = [rng.choice([ValueError, RuntimeError, R.E0])(rng.choice(R.MSGS)) for _ in range(NEXC)]
     else:
         xs = [R.gen_exn(rng) for _ in range(NEXC)]
